@@ -95,4 +95,103 @@ def outcomeClass : SFOutcome → ErrClass
   | .typeErr => .other
   | .decodeErr => .other
 
+/-- the caller's response value as the model leaves it -/
+def outcomeVal : SFOutcome → Option Val
+  | .success v => some v
+  | .status _ iv => iv
+  | .typeErr => none
+  | .decodeErr => none
+
+theorem err_spec (st : Val) :
+    (Gen.llrp_LLRPStatus_Err errEnv () st).2 = if codeOf st = 0 then GoErr.nil else GoErr.status (codeOf st) := by
+  by_cases h : codeOf st = 0 <;> simp [Gen.llrp_LLRPStatus_Err, errEnv, h]
+
+theorem codeOf_zero_iff (st : Val) : codeOf st = 0 ↔ statusCode st = some 0 := by
+  unfold codeOf
+  cases h : statusCode st with
+  | none => simp
+  | some c => simp
+
+theorem src_sendFor (S : Schema) (exp : Container) (replyT : Nat) (payload : Bytes) :
+    classOf (Gen.llrp_Client_SendFor (sfEnvFor exp.statusable) ⟨S, exp, replyT, payload, none⟩ () () ()).2
+      = outcomeClass (sendFor S exp replyT payload) := by
+  unfold sendFor
+  by_cases ht : replyT = exp.typeId
+  · have ht' : ((replyT : Int) = (exp.typeId : Int)) := by omega
+    cases hd : decode S exp payload with
+    | none =>
+      simp [Gen.llrp_Client_SendFor, sfEnvFor, sfEnv, ht, hd, ofInts_toInts, classOf, outcomeClass, GoErr.statusOf]
+    | some v =>
+      by_cases hs : exp.statusable = true
+      · cases hst : llrpStatusOf exp v with
+        | none =>
+          simp [Gen.llrp_Client_SendFor, sfEnvFor, sfEnv, ht, hd, ofInts_toInts, classOf, outcomeClass, GoErr.statusOf, hs, hst]
+        | some st =>
+          by_cases h0 : statusCode st = some 0
+          · have : codeOf st = 0 := (codeOf_zero_iff st).mpr h0
+            simp [Gen.llrp_Client_SendFor, sfEnvFor, sfEnv, ht, hd, ofInts_toInts, classOf, outcomeClass, GoErr.statusOf, hs, hst, h0, err_spec, this]
+          · have : ¬ codeOf st = 0 := fun h => h0 ((codeOf_zero_iff st).mp h)
+            simp [Gen.llrp_Client_SendFor, sfEnvFor, sfEnv, ht, hd, ofInts_toInts, classOf, outcomeClass, GoErr.statusOf, hs, hst, h0, err_spec, this]
+      · simp [Gen.llrp_Client_SendFor, sfEnvFor, sfEnv, ht, hd, ofInts_toInts, classOf, outcomeClass, GoErr.statusOf, hs]
+  · have ht' : ¬ ((replyT : Int) = (exp.typeId : Int)) := by omega
+    by_cases he : replyT = errorMessageType
+    · subst he
+      have ht' : ¬ ((errorMessageType : Int) = (exp.typeId : Int)) := by omega
+      have he' : ((errorMessageType : Int) = 100) := by decide
+      have he : errorMessageType = errorMessageType := rfl
+      have h100 : ¬ ((100 : Int) = (exp.typeId : Int)) := by unfold errorMessageType at ht; omega
+      cases hm : S.msg? "ErrorMessage" with
+      | none => simp [Gen.llrp_Client_SendFor, sfEnvFor, sfEnv, ht, ht', he, he', h100, hm, ofInts_toInts, classOf, outcomeClass, GoErr.statusOf]
+      | some em =>
+        cases hd : decode S em payload with
+        | none => simp [Gen.llrp_Client_SendFor, sfEnvFor, sfEnv, ht, ht', he, he', h100, hm, hd, ofInts_toInts, classOf, outcomeClass, GoErr.statusOf]
+        | some e =>
+          cases hst : llrpStatusOf em e with
+          | none => simp [Gen.llrp_Client_SendFor, sfEnvFor, sfEnv, ht, ht', he, he', h100, hm, hd, hst, ofInts_toInts, classOf, outcomeClass, GoErr.statusOf]
+          | some st => simp [Gen.llrp_Client_SendFor, sfEnvFor, sfEnv, ht, ht', he, he', h100, hm, hd, hst, ofInts_toInts, classOf, outcomeClass, GoErr.statusOf]
+    · have he' : ¬ ((replyT : Int) = 100) := by unfold errorMessageType at he; omega
+      simp [Gen.llrp_Client_SendFor, sfEnvFor, sfEnv, ht, ht', he, he', classOf, outcomeClass, GoErr.statusOf]
+
+theorem src_sendFor_value (S : Schema) (exp : Container) (replyT : Nat) (payload : Bytes)
+    (hne : sendFor S exp replyT payload ≠ .decodeErr) :
+    (Gen.llrp_Client_SendFor (sfEnvFor exp.statusable) ⟨S, exp, replyT, payload, none⟩ () () ()).1.inVal
+      = outcomeVal (sendFor S exp replyT payload) := by
+  revert hne
+  unfold sendFor
+  by_cases ht : replyT = exp.typeId
+  · have ht' : ((replyT : Int) = (exp.typeId : Int)) := by omega
+    cases hd : decode S exp payload with
+    | none =>
+      simp [Gen.llrp_Client_SendFor, sfEnvFor, sfEnv, ht, hd, ofInts_toInts, outcomeVal]
+    | some v =>
+      by_cases hs : exp.statusable = true
+      · cases hst : llrpStatusOf exp v with
+        | none =>
+          simp [Gen.llrp_Client_SendFor, sfEnvFor, sfEnv, ht, hd, ofInts_toInts, outcomeVal, hs, hst]
+        | some st =>
+          by_cases h0 : statusCode st = some 0
+          · have : codeOf st = 0 := (codeOf_zero_iff st).mpr h0
+            simp [Gen.llrp_Client_SendFor, sfEnvFor, sfEnv, ht, hd, ofInts_toInts, outcomeVal, hs, hst, h0, err_spec, this]
+          · have : ¬ codeOf st = 0 := fun h => h0 ((codeOf_zero_iff st).mp h)
+            simp [Gen.llrp_Client_SendFor, sfEnvFor, sfEnv, ht, hd, ofInts_toInts, outcomeVal, hs, hst, h0, err_spec, this]
+      · simp [Gen.llrp_Client_SendFor, sfEnvFor, sfEnv, ht, hd, ofInts_toInts, outcomeVal, hs]
+  · have ht' : ¬ ((replyT : Int) = (exp.typeId : Int)) := by omega
+    by_cases he : replyT = errorMessageType
+    · subst he
+      have ht' : ¬ ((errorMessageType : Int) = (exp.typeId : Int)) := by omega
+      have he' : ((errorMessageType : Int) = 100) := by decide
+      have he : errorMessageType = errorMessageType := rfl
+      have h100 : ¬ ((100 : Int) = (exp.typeId : Int)) := by unfold errorMessageType at ht; omega
+      cases hm : S.msg? "ErrorMessage" with
+      | none => simp [Gen.llrp_Client_SendFor, sfEnvFor, sfEnv, ht, ht', he, he', h100, hm, ofInts_toInts, outcomeVal]
+      | some em =>
+        cases hd : decode S em payload with
+        | none => simp [Gen.llrp_Client_SendFor, sfEnvFor, sfEnv, ht, ht', he, he', h100, hm, hd, ofInts_toInts, outcomeVal]
+        | some e =>
+          cases hst : llrpStatusOf em e with
+          | none => simp [Gen.llrp_Client_SendFor, sfEnvFor, sfEnv, ht, ht', he, he', h100, hm, hd, hst, ofInts_toInts, outcomeVal]
+          | some st => simp [Gen.llrp_Client_SendFor, sfEnvFor, sfEnv, ht, ht', he, he', h100, hm, hd, hst, ofInts_toInts, outcomeVal]
+    · have he' : ¬ ((replyT : Int) = 100) := by unfold errorMessageType at he; omega
+      simp [Gen.llrp_Client_SendFor, sfEnvFor, sfEnv, ht, ht', he, he', outcomeVal]
+
 end LLRP.SeqGlue
